@@ -349,6 +349,8 @@ def check_cli(res, case):
     cfg = prog.setdefault("cfg", {})
     cap = {"stdout": cfg.get("capture_stdout") is not False, "stderr": cfg.get("capture_stderr") is not False,
            "log": cfg.get("capture_log") is not False}
+    if case.get("no_before_all") and not prog.get("hook_faults"):
+        prog["no_before_all"] = True
     out = disk.run_cli(prog, extra_args=["-f", "plain", "--no-timings"])
     if out.returncode not in (0, 1):
         res.fail("C18.cli.exit", "exit code %r: %s" % (out.returncode, out.stderr[-300:]))
@@ -370,6 +372,26 @@ def check_cli(res, case):
         want = [m for m in extract_markers(out.stdout) if m[2] == "o"]
         if not want and ref.calls:
             res.fail("C18.cli.passthrough", "stdout capture is off but no stdout marker reached the child's stdout")
+    if prog.get("no_before_all") and not cap["log"]:
+        # an environment file without before_all: behave's default before_all sets up logging (config.logging_level,
+        # default INFO), so with log capture off every record from INFO upwards passes through to stderr
+        level = LEVELS[cfg.get("logging_level") or "INFO"]
+        emitted = {}
+        for feat, inst in runcheck.instances(prog):
+            for s in all_steps_of(feat, inst):
+                if s.get("emit"):
+                    emitted[(inst["name"], s["uid"])] = s["emit"]
+        seen = set(extract_markers(out.stderr)) | set(extract_markers(out.stdout))
+        for scen, uid in map(tuple, out.log["calls"] if out.log else []):
+            em = emitted.get((scen, uid))
+            if em and em["level"] >= level and em.get("logger") in (None, "vf", "other"):
+                text = em["log"].replace("{S}", scen)
+                if text not in seen:
+                    res.fail("C18.cli.log-passthrough", "log capture is off and the environment has no before_all hook, but "
+                             "the %s record %s of step %s did not reach the child's output"
+                             % (em["_level"], text, uid))
+                    break
+        res.label("cli:default-before_all")
     res.label("cli")
     res.nontrivial = len(ref.selected) >= 2
     return res
@@ -433,12 +455,17 @@ def explore(rec):
     quick = rec.tier == "quick"
     rec.enum("sequences<=3 x 8 capture combinations", enumeration())
     rec.hyp("random-programs", random_case(), 10000 if quick else 200000)
-    rec.hyp("cli", random_case().map(lambda c: dict(c, kind="cli")), 32 if quick else 400)
+    def cli_case(c, nb):
+        c = dict(c, kind="cli", no_before_all=nb)
+        if nb and c["program"]["cfg"].get("capture_log") is False:
+            c["levels"] = ["INFO", "WARNING", "ERROR"]
+        return c
+    rec.hyp("cli", st.builds(cli_case, random_case(), st.booleans()), 64 if quick else 600)
 
 
 def required_labels(tier):
     return ["capture:%d%d%d" % (a, b, c) for a in (0, 1) for b in (0, 1) for c in (0, 1)] + \
-           ["hook-emit", "failing-not-first", "step-hook-fault", "logging-level/filter", "setup_logging-in-before_all", "@capture-decorated-hooks", "log-flood>=999", "interrupt", "nested-steps", "cli"]
+           ["hook-emit", "failing-not-first", "step-hook-fault", "logging-level/filter", "setup_logging-in-before_all", "@capture-decorated-hooks", "log-flood>=999", "interrupt", "nested-steps", "cli", "cli:default-before_all"]
 
 
 KNOWN_PREDICATES = {}
